@@ -17,7 +17,7 @@ RULE = ("stratified + seeded random (configuration, sample) pairs; non-trivial =
         "(so that products do not collapse to powers) or finite N with the null mean moving; distinct = hash of "
         "(kind, configuration, sample)")
 REQUIRED = [f"ref_compared:{nn.label({'test': a, 'estim': b, 'bet': c})}" for a, b, c in nn.COMBOS] + \
-           ["equiv_compared", "inverse_checked", "entries_eq", "entries_boundary"]
+           ["equiv_compared", "inverse_checked", "entries_eq", "entries_boundary", "stratum:nondyadic_boundary_neighbourhood"]
 ASSUMPTIONS = ["eta_j and lambda_j are taken from the real estimator/bet (their ranges are C13's business)",
                "boundary-index conventions of DESIGN.md C12: at the index where the total first exceeds N t either the "
                "product value or 0 is accepted; where mu_j is within the code's tolerances of 0 or u either the product "
@@ -40,6 +40,11 @@ def run_shard(spec, rec):
             combo = nn.COMBOS[r]
             cfg = nn.gen_cfg(rng, combo=combo, n_max=rng.choice((6, 12, 12, 30)))
             st, x = nn.gen_sample(rng, cfg, n_max=30)
+            if i % 10 == 0:
+                y = nn.gen_mu_tiny(rng, cfg, nn.cfgN(cfg) if cfg["N"] != "inf" else 30) if rng.random() < 0.5 else nn.gen_near_t(rng, cfg, nn.cfgN(cfg) if cfg["N"] != "inf" else 12)
+                if y:
+                    st, x = "nondyadic_boundary_neighbourhood", y
+                    rec.count("stratum:nondyadic_boundary_neighbourhood")
             if not nn.in_domain(cfg, x):
                 continue
             run_case({"kind": "ref", "cfg": cfg, "x": x, "stratum": st}, rec)
